@@ -6,7 +6,12 @@
 //	   encoder and decoded by the real decoder(s); the decoded value must equal the original
 //	   (nil and empty are equal), the encoder must fill exactly MarshalSize bytes, and the decoder
 //	   must consume exactly the encoding even when other bytes follow. Varints are additionally
-//	   compared with an independent reference encoder.
+//	   compared with an independent reference encoder. Lists with repeated elements (timestamps,
+//	   authorization tokens, namespace fields; alone and inside every message / subgroup object that
+//	   carries them) hold a different value at every position. Reference vectors (refvec.go): bytes
+//	   from the harness's independent builders + the value they stand for, through the real decoder
+//	   and the real encoder; any disagreement is a violation (roundtrip-mismatch:<vector>,
+//	   encoder-differs-from-reference:<vector>, decoder-rejects-reference-encoding:<vector>).
 //	B. decode safety: varint - every byte string of length <= 3 and every 9-byte string over a
 //	   boundary byte alphabet, through both decoders; structured types - truncation at every offset,
 //	   every single-byte deviation, double-byte deviations over a boundary alphabet, and every
@@ -85,7 +90,9 @@ func main() {
 	r.Rule = "A: values of a small structured alphabet per wire type (varint value set; namespaces, parameter lists, property lists with <= 3 " +
 		"elements over 4..7 values per field plus maximal sizes; every control message type with every field over {min, typical, max}, REQUEST_ERROR reasons of every length from 4 below to 8 above the largest " +
 		"that fits the 16-bit payload for each of the 9 widths of the code; subgroups " +
-		"with 0..3 objects x header flags) through real encode -> real decode. B: varint: all byte strings of length <= 3 and 9-byte strings " +
+		"with 0..3 objects x header flags; lists with repeated elements carry a different value at every position, lengths 2, 3, 5, 17 with position-naming values for timestamps, tokens, namespace fields, " +
+		"alone and inside PUBLISH / REQUEST_OK / a subgroup object) through real encode -> real decode; 35 reference vectors (the 22 decode-safety seeds + 13 repeated-element vectors: bytes from an independent builder and the hand-written value) " +
+		"through real decode and real encode, compared with the reference in both directions. B: varint: all byte strings of length <= 3 and 9-byte strings " +
 		"over a boundary alphabet; other types: truncations, all single-byte deviations, double-byte deviations over a boundary alphabet, every " +
 		"length/count/value field at every boundary value (these first), the element count handed to Parameters.Unmarshal over 19 values. distinct = (wire type, kind of case, outcome class: accepted / error message with " +
 		"numbers removed / panic) for B and (wire type, structural shape of the value) for A"
@@ -94,6 +101,12 @@ func main() {
 	wsCh := make(chan *wsummary, 1)
 	go func() { wsCh <- safetyStructured(r, t) }() // worker subprocesses, single-threaded each
 	roundTripVarint(r, t)
+	refV, nRef := checkReferenceVectors(t.d)
+	t.evals.Add(int64(nRef))
+	for _, v := range refV {
+		r.Violation(v.key, v.what, v.rep)
+	}
+	r.Set("reference_vectors", nRef)
 	roundTripStructured(r, t)
 	nVar := safetyVarint(r, t)
 	ws := <-wsCh
@@ -309,6 +322,27 @@ func structuredCases(f func(rtCase)) {
 		f(rtCase{codec: "properties", shape: fmt.Sprintf("timestamps=%d", len(p)), val: property.Properties(p), required: true})
 	})
 
+	// longer lists whose elements name their position (a decoder that reuses one variable, or an encoder that writes
+	// one element for all, shows at any length >= 2; these make it show whatever the element values of the alphabets above)
+	for _, n := range []int{2, 3, 5, 17} {
+		var ps property.Properties
+		var pa parameter.Parameters
+		for i := 0; i < n; i++ {
+			ps = append(ps, new(property.Timestamp(int64(1000+i)*int64(1+i%3)<<(uint(i%4)*14))))
+			pa = append(pa, &parameter.AuthorizationToken{AliasType: parameter.AuthorizationTokenAliasTypeUseValue, TokenType: uint64(100 + i), TokenValue: []byte(fmt.Sprintf("token-%d", i))})
+		}
+		f(rtCase{codec: "properties", shape: fmt.Sprintf("timestamps=%d all-different", n), val: ps, required: true})
+		f(rtCase{codec: "parameters", shape: fmt.Sprintf("tokens=%d all-different", n), val: pa, required: true})
+		f(rtCase{codec: "namespace", shape: fmt.Sprintf("parts=%d all-different", n), val: mk(n, "field"), required: true})
+		f(rtCase{codec: "controlmessage", shape: fmt.Sprintf("Publish params=%d props=%d all-different", n, n),
+			val: &controlmessage.Publish{RequestID: 1, Namespace: mk(n, "ns"), TrackName: "t", TrackAlias: 2, Parameters: pa, TrackProperties: ps}, required: true})
+		f(rtCase{codec: "controlmessage", shape: fmt.Sprintf("RequestOk params=%d props=%d all-different", n, n),
+			val: &controlmessage.RequestOk{Parameters: pa, TrackProperties: ps}, required: true})
+		f(rtCase{codec: "subgroup", shape: fmt.Sprintf("objects=1 propsFlag=true props=%d all-different", n),
+			val: &subgroup.SubGroup{Header: subgroup.Header{Properties: true, TrackAlias: 1, GroupID: 2},
+				Objects: []subgroup.Object{{IDDelta: 1, Properties: ps, Payload: []byte("payload")}}}, required: true})
+	}
+
 	// control messages: every field over {min, typical, max}
 	strs := func(maxLen int) []string {
 		return []string{"", "/foo", strings.Repeat("p", 300), strings.Repeat("q", maxLen)}
@@ -328,8 +362,10 @@ func structuredCases(f func(rtCase)) {
 	ids := []uint64{0, 1, 1 << 62, math.MaxUint64}
 	nss := []namespace.Namespace{nil, {"foo"}, {"a", "", "b"}, mk(32, "part")}
 	tracks := []string{"", "bar", strings.Repeat("t", 300)}
-	paramSets := []parameter.Parameters{nil, {toks[5]}, {toks[1], toks[14]}}
-	propSets := []property.Properties{nil, {new(property.Timestamp(1000))}, {new(property.Timestamp(0)), new(property.Timestamp(math.MinInt64))}}
+	// (lists with repeated elements carry a different value at every position)
+	paramSets := []parameter.Parameters{nil, {toks[5]}, {toks[1], toks[14]}, {toks[9], toks[2], toks[7]}}
+	propSets := []property.Properties{nil, {new(property.Timestamp(1000))}, {new(property.Timestamp(0)), new(property.Timestamp(math.MinInt64))},
+		{new(property.Timestamp(7)), new(property.Timestamp(1 << 40)), new(property.Timestamp(-3))}}
 	for _, id := range ids {
 		for ni, ns := range nss {
 			for _, tr := range tracks {
@@ -400,7 +436,8 @@ func structuredCases(f func(rtCase)) {
 
 	// subgroups
 	payloads := [][]byte{{0x00}, []byte("hello"), bytes.Repeat([]byte{0xAB}, 300), bytes.Repeat([]byte{0xCD}, 70000)}
-	objProps := []property.Properties{nil, {new(property.Timestamp(1000))}, {new(property.Timestamp(1)), new(property.Timestamp(-5))}}
+	objProps := []property.Properties{nil, {new(property.Timestamp(1000))}, {new(property.Timestamp(1)), new(property.Timestamp(-5))},
+		{new(property.Timestamp(3)), new(property.Timestamp(2)), new(property.Timestamp(1 << 50))}}
 	for _, hp := range []bool{false, true} {
 		for _, fo := range []bool{false, true} {
 			for _, alias := range []uint64{0, 1, math.MaxUint64} {
@@ -804,19 +841,9 @@ func safetyStructured(r *vcommon.Run, t *tally) *wsummary {
 		Deaths: map[string]int{}, Stopped: map[string]string{}}
 	var mu sync.Mutex
 	var wg sync.WaitGroup
-	// the seeds are written by the harness's own builders: each must be accepted by the real decoder and be the
-	// canonical encoding of what it decodes to, otherwise the deviations would not start from a valid encoding
-	for _, sd := range seeds() {
-		cd := codecs[sd.codec]
-		val, n, err := cd.decode(sd.b.b, sd.aux)
-		if err != nil || n != len(sd.b.b) {
-			vcommon.Harness("C32: seed %s (%x) is not accepted by the real decoder: n=%d err=%v", sd.name, sd.b.b, n, err)
-		}
-		if enc, _ := cd.encode(val); !bytes.Equal(enc, sd.b.b) && !strings.Contains(sd.name, "unknown") && !strings.Contains(sd.name, "mixed") &&
-			sd.name != "msg-request-error" && sd.name != "sg-props-empty" {
-			vcommon.Harness("C32: seed %s: harness builder gives %x, the real encoder %x for %s", sd.name, sd.b.b, enc, cd.render(val))
-		}
-	}
+	// (the seeds are written by the harness's own builders; whether the real decoder and encoder agree with them is judged
+	// by checkReferenceVectors - a disagreement is a finding about the code under test, reported as a violation, and the
+	// deviations below still start from the builder's bytes)
 	dir, err := os.MkdirTemp("", "verif-c32-")
 	if err != nil {
 		vcommon.Harness("C32: %v", err)
